@@ -394,6 +394,10 @@ def num_mul(self, a, b, node, div=False, va=None, vb=None):
         except Exception:
             r.sz = None
     r.nonneg = a.nonneg and b.nonneg
+    if not div and ((a.conj_of is not None and a.conj_of == b.uid) or (b.conj_of is not None and b.conj_of == a.uid)):
+        # z * conj(z) = |z|^2: real and non-negative whatever the dtype
+        r.rv = True
+        r.nonneg = True
     if a.ex is not None and b.ex is not None:
         if div:
             if b.ex.is_const() and b.ex.c != 0:
